@@ -112,7 +112,7 @@ CHECKS = {
              "three read interlaces, palettes in three read interlaces, GRendaccess/GRselect, GRend/GRstart restarts. "
              "Oracle: height x width x components model with independently written interlace permutations. "
              "8 000 (quick) / 200 000 (thorough) histories.",
-        note="Trusts the array model; writes use stride 1 (the property speaks of region writes); old-style (DFR8) RLE "
+        note="Trusts the array model; half of the cases use stride 1 in writes (the statement speaks of region writes), the other half sub-sampled writes as well (fix 28a6259); old-style (DFR8) RLE "
              "images are read, and rewritten with one colour only (known finding: a longer RLE stream cannot replace the "
              "stored one; the refusal is reported since fix 293cb57).",
         tech=TECH % ("", "oracle = pixel-array reference model"),
